@@ -287,6 +287,59 @@ func scenarioDelayedConfirmation(r *vh.Rand) (string, []string) {
 	return g.c.Header(), g.ops
 }
 
+// scenario 4: a leadership transfer reaches a follower that knows a membership change is
+// committed but has not applied it; whoever leads afterwards is then asked for another change.
+func scenarioTransferWithUnappliedChange(r *vh.Rand) (string, []string) {
+	g := newScenarioGen(r, 3, uint64(4+r.Intn(4)), false, false)
+	if !g.elect(1, nil) {
+		return g.c.Header(), g.ops
+	}
+	g.nextKey++
+	g.cc(1, uint64(pb.AddNode), 4)
+	g.update(1)
+	// replicate and commit, but nobody applies yet (no apply ops): deliver without the apply step
+	deliverNoApply := func(keep func(m pb.Message) bool) {
+		for n := 0; n < 200 && !g.Stopped; n++ {
+			idx := -1
+			for i, m := range g.Pool {
+				if keep(m) {
+					idx = i
+					break
+				}
+			}
+			if idx < 0 {
+				return
+			}
+			m := g.Pool[idx]
+			g.Deliver(idx, false, false, nil)
+			if !g.Stopped {
+				g.do(fmt.Sprintf("U %d 1 %d", m.To, g.c.Nodes[m.To].Applied))
+			}
+		}
+	}
+	all := func(m pb.Message) bool { return m.To != 4 }
+	deliverNoApply(all)
+	g.do("T 1")
+	g.do(fmt.Sprintf("U 1 1 %d", g.c.Nodes[1].Applied))
+	deliverNoApply(all)
+	// transfer to 2 while 2 has committed > applied
+	g.do("LT 1 2")
+	g.do(fmt.Sprintf("U 1 1 %d", g.c.Nodes[1].Applied))
+	deliverNoApply(all)
+	deliverNoApply(all)
+	// a second change is requested from whoever is leader now
+	for _, k := range g.liveIDs() {
+		if g.role(k) == 3 {
+			g.nextKey++
+			g.cc(k, uint64(pb.AddNode), 5)
+			g.do(fmt.Sprintf("U %d 1 %d", k, g.c.Nodes[k].Applied))
+		}
+	}
+	deliverNoApply(all)
+	return g.c.Header(), g.ops
+}
+
 var scenarios = []func(r *vh.Rand) (string, []string){
+	scenarioTransferWithUnappliedChange,
 	scenarioVoteRace, scenarioTransferRemove, scenarioDeposedLeaderRead, scenarioDelayedConfirmation,
 }
